@@ -19,7 +19,7 @@ import vf
 from checks import xtext_common as xc
 
 SPECDIR = xc.SPECDIR
-DEVS = ["Dev_NoEscape", "Dev_EscapeRaw", "Dev_ZeroFalsy", "Dev_EmptyArrayTruthy", "Dev_NoStandalone", "Dev_NoIndent", "Dev_DepthOffByOne",
+DEVS = ["Dev_CrlfBlankIndented", "Dev_NoEscape", "Dev_EscapeRaw", "Dev_ZeroFalsy", "Dev_EmptyArrayTruthy", "Dev_NoIndent", "Dev_NoStandalone", "Dev_DepthOffByOne",
         "Dev_CloseNotChecked", "Dev_InnermostOnly", "Dev_PartialEager"]
 INVS = ["Refines", "BalanceAgrees"]
 # the evaluator recurses as deep as the templates nest: large thread stacks
@@ -36,13 +36,13 @@ CONFIGS = [
     ("dotted", ["Ool", "Col", "Oosp", "Cosp", "Oo", "Co", "Vdot", "Rdot", "Vs", "Vt", "X", "Iozz", "Cozz"], [True], 3, 5),
     ("standalone", ["SP", "W2", "NL", "CRNL", "X", "Oo", "Co", "K1", "K3", "Vs", "Ia", "Ca"], [True], 3, 5),
     ("comments", ["K1", "K2", "K3", "K4", "X", "SP", "NL", "Vs", "RB"], [True], 3, 5),
-    ("partials", ["Pp", "Ppsp", "Pm", "Pmm", "Psec", "Pout", "Prec", "Pmut", "Pno", "Pbad", "SP", "W2", "NL", "X", "Of", "Cf", "If"], [True], 3, 4),
+    ("partials", ["Pp", "Ppsp", "Pm", "Pmm", "Pmmc", "Psec", "Pout", "Prec", "Pmut", "Pno", "Pbad", "SP", "W2", "NL", "X", "Of", "Cf", "If"], [True], 3, 4),
     ("noresolver", ["Pp", "Pno", "X", "Of", "Cf", "If", "NL"], [False], 3, 4),
     ("errors", ["B1", "B2", "B3", "B4", "SD", "X", "Vs", "Oo", "Co", "RB", "LB", "K4", "Rq"], [True], 3, 4),
     ("depth", ["D99", "D100", "D101", "Of", "Cf", "Ot", "Ct", "Pdp", "Pd99", "X", "If"], [True], 3, 4),
 ]
 NOERR = ("interp", "comments")       # families without any structural lexeme: no error case expected
-SIM = ("layout", ["SP", "W2", "NL", "CRNL", "X", "Oo", "Co", "K1", "K3", "Vs", "Pp", "Pm", "Pmm", "Psec", "Pout", "Ia", "Ca", "Ot", "Ct"], [True], 10)
+SIM = ("layout", ["SP", "W2", "NL", "CRNL", "X", "Oo", "Co", "K1", "K3", "Vs", "Pp", "Pm", "Pmm", "Pmmc", "Psec", "Pout", "Ia", "Ca", "Ot", "Ct"], [True], 10)
 
 
 def mc(ck, name, families, emit=True, tables=False, devinv=False, flag=None):
@@ -56,7 +56,7 @@ def mc(ck, name, families, emit=True, tables=False, devinv=False, flag=None):
         # Refines under each single deviation as separate invariants: ONE TLC run (-continue) shows all of them violated
         for d in DEVS:
             defs.append('Inv_%s == Eval(lex, res, {"%s"}) = Eval(lex, res, {})' % (d, d[4:]))
-        invs = ["Inv_" + d for d in DEVS]
+        invs = ["Inv_" + d for d in DEVS]      # TLC reports the FIRST violated invariant of a state: order matters (CrlfBlank < NoIndent < NoStandalone)
     mod = xc.write_mc(ck, "MCM_" + name, "Mustache", defs)
     cfg = os.path.join(ck.work, "MCM_%s.cfg" % name)
     c = {"Families": "<- MCFamilies", "MaxHeavy": 1}
@@ -70,7 +70,7 @@ def dev_selftest(ck):
     """every deviation must make TLC report a violation of Refines on a small family that contains a witness for each
     (one TLC run with -continue and coverage, which also shows that the generator's action is taken: the invariant
     Inv_Dev_X is Refines with F = {X}).  The thorough tier additionally sets each CONSTANT Dev_* flag TRUE in its own run."""
-    mod, cfg = mc(ck, "dev", [("devA", ["Vq", "Rq", "D100", "Pm", "W2"], [True], 2),
+    mod, cfg = mc(ck, "dev", [("devA", ["Vq", "Rq", "D100", "Pm", "Pmmc", "W2"], [True], 2),
                               ("devB", ["Oi", "Ci", "X", "Iz", "Cz", "Oo", "Co", "NL", "Ca", "Vk", "Of", "Pno", "Cf"], [True], 3)], devinv=True)
     r = vf.run_tlc(mod, cfg, tag="X17_dev", workers=1, timeout=900, lib_dirs=[SPECDIR], env=JVM, coverage=True, extra=["-continue"])
     hit = set(re.findall(r"Invariant Inv_(Dev_\w+) is violated", r.out))
@@ -80,7 +80,7 @@ def dev_selftest(ck):
         raise vf.Infra("self-test: action Next of Mustache.tla never taken")
     xc.account(ck, r, "Mustache.")
     if ck.tier == "thorough":
-        fams = [("devA", ["Vq", "Rq", "D100", "Pm", "W2"], [True], 2),
+        fams = [("devA", ["Vq", "Rq", "D100", "Pm", "Pmmc", "W2"], [True], 2),
                 ("devB", ["Oi", "Ci", "X", "Iz", "Cz", "Oo", "Co", "NL", "Ca", "Vk", "Of", "Pno", "Cf"], [True], 3)]
         jobs = []
         for d in DEVS:
@@ -200,7 +200,8 @@ def drive_and_judge(ck, tag, lines_in, setup):
     if crashed or hung:
         ck.note("driver: %d crashed, %d hung; sanitizer output: %s" % (crashed, hung, xc.worker_stderr(op, 1500)))
     xc.report_bad(ck, "MustacheTrace", lines, bad, lambda ln: lines_in[ln - 1])
-    return lines, bad
+    by = xc.report_obs(ck, lines, obs, xc.load_observations("X17"))
+    return lines, bad, {ln for lns in by.values() for ln in lns}
 
 
 def run(ck):
@@ -267,11 +268,17 @@ def run(ck):
     def text_of(c):
         return "".join(lexemes[x]["txt"] for x in c["lex"])
     lines_in = ["T %d %s %s" % (1 if c["res"] else 0, ",".join(c["lex"]) or "-", text_of(c).encode().hex() or "-") for c in cases]
-    lines, bad = drive_and_judge(ck, "mustache", lines_in, setup)
+    lines, bad, obsset = drive_and_judge(ck, "mustache", lines_in, setup)
     badset = {ln for ln, _ in bad}
+    predicted = {k for k, c in enumerate(cases, 1) if c.get("dev")}
+    if not predicted:
+        raise vf.Infra("no generated template is sensitive to the documented deviation Dev_CrlfBlankIndented")
+    if predicted - obsset - badset:
+        ck.note("documented deviation Dev_CrlfBlankIndented NOT reproduced on %d of %d sensitive templates (engine changed?)" % (
+            len(predicted - obsset - badset), len(predicted)))
     drift = 0
     for k, (c, ln) in enumerate(zip(cases, lines), 1):
-        if k in badset:
+        if k in badset or k in obsset:
             continue
         e = json.loads(ln)
         if e["e"] == "Render" and (e["ok"] == c["err"] or (e["ok"] and e["out"] != c["out"])):
@@ -320,5 +327,5 @@ def replay(ck, path):
         raise vf.Infra("TLC did not print the tables of MustacheData: " + (r.error or "")[-500:])
     setup = write_setup(ck, tabs[0])
     lines_in = [ln.strip() for ln in open(os.path.join(path, "cases.txt")) if ln.strip()]
-    lines, bad = drive_and_judge(ck, "replay", lines_in, setup)
+    lines, bad, obsset = drive_and_judge(ck, "replay", lines_in, setup)
     print("\n".join(lines[:50]))
